@@ -489,7 +489,8 @@ def features(desc: dict) -> set:
             if e.get("nullable"):
                 out.add("nullable" if d != "3.1" else "type-array")
             if "pattern" in e and ("minLength" in e or "maxLength" in e):
-                out.add("pattern+length")
+                # a repeated GROUP (outside the oracle's catalogue, carried verbatim) is its own class: repetitions are not characters
+                out.add("pattern-group+length" if 40 in e["pattern"].get("src", []) else "pattern+length")
         for k, v in e.items():
             if k not in ("enum", "const", "pattern"):
                 walk(v)
